@@ -127,6 +127,7 @@ struct Shared {
 	compacted: AtomicBool,
 	in_flight: Vec<AtomicUsize>,
 	arrivals: AtomicUsize,
+	completed: AtomicUsize,
 }
 
 fn state_after(kit: &Kit, st: &BTreeMap<usize, (u64, bool)>, b: &Block) -> BTreeMap<usize, (u64, bool)> {
@@ -455,6 +456,9 @@ struct RunCfg {
 	/// thread counts of the concurrent runs made on this tree (one fresh subject chain each)
 	threads: Vec<usize>,
 	long: bool,
+	/// include `get_kernel_height` among the concurrent readers (known finding: it can spin for ever
+	/// holding header_pmmr.read() when a reorg shrinks the kernel MMR between its two steps)
+	kernel_height: bool,
 }
 
 fn run(out: &mut Out, rng: &mut Rng, work: &str, cfg: &RunCfg, stats: &mut BTreeMap<String, u64>) {
@@ -622,14 +626,18 @@ fn run(out: &mut Out, rng: &mut Rng, work: &str, cfg: &RunCfg, stats: &mut BTree
 			}
 		}
 		let nreads_per_deliver = if cfg.long { 1 } else { 3 };
+		let with_kh = cfg.kernel_height;
 		let rand_read = |rng: &mut Rng, sc: &Scenario| -> Op {
+			if with_kh && rng.chance(1, 3) {
+				return Op::KernelHeight(rng.below(sc.kernels.len() as u64) as usize);
+			}
 			match rng.below(12) {
 				0 | 1 => Op::ReadHead,
 				2 | 3 => Op::View,
 				4 | 5 => Op::GetUnspent(rng.below(sc.commits.len() as u64) as usize),
 				6 => Op::HeaderByHeight(rng.below(sc.max_height + 2)),
 				7 => Op::HeaderForOutput(rng.below(sc.commits.len() as u64) as usize),
-				8 => Op::KernelHeight(rng.below(sc.kernels.len() as u64) as usize),
+				8 if with_kh => Op::KernelHeight(rng.below(sc.kernels.len() as u64) as usize),
 				9 | 10 if !sc.txs.is_empty() => Op::ValidateTx(rng.below(sc.txs.len() as u64) as usize),
 				_ => Op::ReadHead,
 			}
@@ -710,6 +718,7 @@ fn run(out: &mut Out, rng: &mut Rng, work: &str, cfg: &RunCfg, stats: &mut BTree
 			compacted: AtomicBool::new(false),
 			in_flight: (0..n).map(|_| AtomicUsize::new(usize::MAX)).collect(),
 		arrivals: AtomicUsize::new(0),
+			completed: AtomicUsize::new(0),
 		});
 		let progs = Arc::new(progs);
 		let logs: Arc<Vec<Mutex<ThreadLog>>> = Arc::new((0..n).map(|_| Mutex::new(ThreadLog::default())).collect());
@@ -745,6 +754,7 @@ fn run(out: &mut Out, rng: &mut Rng, work: &str, cfg: &RunCfg, stats: &mut BTree
 						};
 						log.fails.push(format!("panic in thread {} during op #{} {:?}: {}", t, i, op, msg));
 					}
+					sh.completed.fetch_add(1, Ordering::SeqCst);
 				}
 				sh.in_flight[t].store(usize::MAX, Ordering::SeqCst);
 				*logs[t].lock().unwrap() = log;
@@ -753,13 +763,22 @@ fn run(out: &mut Out, rng: &mut Rng, work: &str, cfg: &RunCfg, stats: &mut BTree
 		}
 		drop(txc);
 		start_gate.store(true, Ordering::Release);
-		// watchdog
-		let timeout = Duration::from_secs(if tier_thorough() { 600 } else { 180 });
+		// watchdog: a hang = no op completed anywhere for `stall` (and the threads not finished)
+		let stall = Duration::from_secs(if tier_thorough() { 90 } else { 30 });
 		let mut finished = 0;
+		let mut last_progress = (shared.completed.load(Ordering::SeqCst), Instant::now());
 		while finished < n {
-			match rxc.recv_timeout(timeout.saturating_sub(t0.elapsed()).max(Duration::from_millis(1))) {
+			match rxc.recv_timeout(Duration::from_millis(500)) {
 				Ok(_) => finished += 1,
 				Err(_) => {
+					let c = shared.completed.load(Ordering::SeqCst);
+					if c != last_progress.0 {
+						last_progress = (c, Instant::now());
+						continue;
+					}
+					if last_progress.1.elapsed() < stall {
+						continue;
+					}
 					let inflight: Vec<String> = (0..n)
 						.filter_map(|t| {
 							let i = shared.in_flight[t].load(Ordering::SeqCst);
@@ -770,14 +789,21 @@ fn run(out: &mut Out, rng: &mut Rng, work: &str, cfg: &RunCfg, stats: &mut BTree
 							}
 						})
 						.collect();
+					let kh = inflight.iter().any(|x| x.contains("KernelHeight"));
+					let head = if kh && cfg.kernel_height { "#KNOWN-PROBE C17 get_kernel_height raced with a reorg and spins in get_header_for_kernel_index holding header_pmmr.read():" } else { "#ORACLE-FAIL C17" };
 					out.raw(&format!(
-						"#ORACLE-FAIL C17 deadlock-or-hang run={} seed={} threads={} after {:?}: ops in flight [{}]",
+						"{} deadlock-or-hang run={} seed={} threads={} no op completed for {:?}: ops in flight [{}]",
+						head,
 						run,
 						seed_from_env(),
 						n,
-						t0.elapsed(),
+						stall,
 						inflight.join(" ; ")
 					));
+					out.raw(&format!("#STAT hang:{}=1", if kh { "with-get_kernel_height-in-flight" } else { "other" }));
+					for (k, v) in stats.iter() {
+						out.raw(&format!("#STAT {}={}", k, v));
+					}
 					out.flush();
 					std::process::exit(0);
 				}
@@ -960,6 +986,83 @@ fn selftest(out: &mut Out, work: &str) {
 	std::process::exit(0);
 }
 
+/// Deterministic exhibit of the finding behind the hangs the random runs hit when
+/// `get_kernel_height` is in the mix: `Chain::get_header_for_kernel_index(i, None, None)` with `i`
+/// greater than the kernel MMR size of the current head (which is what `get_kernel_height` passes
+/// when a reorg to a chain with fewer kernels commits between its `find_kernel` under
+/// `txhashset.read()` and this call) never returns and keeps `header_pmmr.read()`; from then on
+/// every writer (`process_block_header` …) and, behind the parked writer, every new reader of
+/// `header_pmmr` blocks for ever.
+fn probe(out: &mut Out, work: &str) {
+	let mut kit = Kit::new(&format!("{}/pb_builder", work));
+	let mut tip = 0;
+	for _ in 0..4 {
+		tip = kit.new_block(tip, 2, &[]).unwrap();
+	}
+	let extra = kit.new_block(tip, 2, &[]).unwrap();
+	let dir = format!("{}/pb_subject", work);
+	let _ = std::fs::remove_dir_all(&dir);
+	let chain = Arc::new(init_chain(&dir, kit.genesis.clone()).unwrap());
+	for id in path_to(&kit, tip) {
+		chain.process_block(kit.blks[id].block.clone(), Options::SKIP_POW).unwrap();
+	}
+	let hh = chain.head_header().unwrap();
+	// control: an index inside the kernel MMR returns
+	let ctl = chain.get_header_for_kernel_index(hh.kernel_mmr_size, None, None).map(|h| h.height);
+	out.raw(&format!("#STAT probe:control get_header_for_kernel_index({})={:?}", hh.kernel_mmr_size, ctl));
+	let beyond = hh.kernel_mmr_size + 1;
+	let (txc, rxc) = mpsc::channel::<&'static str>();
+	{
+		let chain = chain.clone();
+		let txc = txc.clone();
+		std::thread::spawn(move || {
+			setup_globals();
+			let _ = chain.get_header_for_kernel_index(beyond, None, None);
+			let _ = txc.send("lookup");
+		});
+	}
+	std::thread::sleep(Duration::from_millis(300));
+	{
+		let chain = chain.clone();
+		let txc = txc.clone();
+		let hdr = kit.blks[extra].block.header.clone();
+		std::thread::spawn(move || {
+			setup_globals();
+			let _ = chain.process_block_header(&hdr, Options::SKIP_POW);
+			let _ = txc.send("writer");
+		});
+	}
+	std::thread::sleep(Duration::from_millis(300));
+	{
+		let chain = chain.clone();
+		let txc = txc.clone();
+		std::thread::spawn(move || {
+			setup_globals();
+			let _ = chain.get_header_by_height(0);
+			let _ = txc.send("reader");
+		});
+	}
+	drop(txc);
+	let t0 = Instant::now();
+	let mut done: Vec<&str> = vec![];
+	while t0.elapsed() < Duration::from_secs(4) {
+		if let Ok(x) = rxc.recv_timeout(Duration::from_millis(200)) {
+			done.push(x);
+		}
+	}
+	if done.is_empty() {
+		out.raw(&format!(
+			"#KNOWN-PROBE C17 get_header_for_kernel_index({}, None, None) with kernel MMR size {} at head height {} never returns and holds header_pmmr.read(): a following process_block_header and, behind it, get_header_by_height(0) are blocked (none of the three returned within 4 s)",
+			beyond, hh.kernel_mmr_size, hh.height
+		));
+		out.raw("#STAT probe:get_header_for_kernel_index-beyond-mmr=spins-holding-header_pmmr.read;writer-blocked;reader-blocked");
+	} else {
+		out.raw(&format!("#STAT probe:get_header_for_kernel_index-beyond-mmr=returned:{:?}", done));
+	}
+	out.flush();
+	std::process::exit(0);
+}
+
 fn main() {
 	quiet_panics();
 	setup_globals();
@@ -972,6 +1075,10 @@ fn main() {
 	let mut stats: BTreeMap<String, u64> = BTreeMap::new();
 	if mode == "selftest" {
 		selftest(&mut out, &work);
+		return;
+	}
+	if mode == "probe" {
+		probe(&mut out, &work);
 		return;
 	}
 
@@ -1007,11 +1114,19 @@ fn main() {
 	let thorough = tier_thorough();
 	let mut cfgs = vec![];
 	match mode {
+		"race" => {
+			// hunt for the get_kernel_height / reorg race (known finding); a hang observed here with
+			// get_kernel_height in flight is reported as #KNOWN-PROBE, anything else as #ORACLE-FAIL
+			let k = if thorough { 6 } else { 2 };
+			for i in 0..k {
+				cfgs.push(RunCfg { run: 200 + i, threads: vec![8, 6, 8, 7, 8, 5, 8, 8], long: false, kernel_height: true });
+			}
+		}
 		"long" => {
 			// a trunk long enough for compaction to prune while the other threads run
 			let k = if thorough { 3 } else { 1 };
 			for i in 0..k {
-				cfgs.push(RunCfg { run: 100 + i, threads: if thorough { vec![3, 5, 8] } else { vec![4, 7] }, long: true });
+				cfgs.push(RunCfg { run: 100 + i, threads: if thorough { vec![3, 5, 8] } else { vec![4, 7] }, long: true, kernel_height: false });
 			}
 		}
 		_ => {
@@ -1024,7 +1139,7 @@ fn main() {
 				} else {
 					vec![8, 7, 6, 5, 4, 3, 2, 8]
 				};
-				cfgs.push(RunCfg { run: i, threads, long: false });
+				cfgs.push(RunCfg { run: i, threads, long: false, kernel_height: false });
 			}
 		}
 	}
